@@ -38,6 +38,10 @@ DEGEN_ROTVECS = [
     (np.pi / np.sqrt(2), np.pi / np.sqrt(2), 0.0),
     tuple(np.array([0.3, -0.5, 0.81]) / np.linalg.norm([0.3, -0.5, 0.81]) * (np.pi - 1e-6)),
     (1e-8, 0.0, 0.0),
+    # small but real rotations (0.4 and 0.5 degrees, the size of a fine angular refinement step): an "is this the identity?"
+    # shortcut with a loose tolerance shows here
+    tuple(np.array([0.3, -0.5, 0.81]) / np.linalg.norm([0.3, -0.5, 0.81]) * 0.007),
+    (0.0, 0.0, 0.0087),
 ]
 
 
